@@ -32,6 +32,7 @@ pub enum CompileErrorKind {
     TooManyArguments,
     TooManyUpvalues,
     TooManyGlobals,
+    TooManyCallSites,
     JumpTooFar,
     BreakOutsideLoop,
     ContinueOutsideLoop,
